@@ -681,17 +681,17 @@ func (c *RemoteClient) GetOutputs(ctx context.Context,
 		}
 
 		if int(outpoint.Index) >= len(tx.TxOut) {
-			return nil, errors.Wrap(err, "invalid index")
+			return nil, errors.New("invalid index")
 		}
 		outputs[i] = tx.TxOut[outpoint.Index]
 
 		// Check if other outpoints have the same txid.
-		for j := range outpoints[i+1:] {
+		for j := i + 1; j < len(outpoints); j++ {
 			if outpoints[j].Hash.Equal(&outpoint.Hash) {
-				if int(outpoint.Index) >= len(tx.TxOut) {
-					return nil, errors.Wrap(err, "invalid index")
+				if int(outpoints[j].Index) >= len(tx.TxOut) {
+					return nil, errors.New("invalid index")
 				}
-				outputs[j] = tx.TxOut[outpoint.Index]
+				outputs[j] = tx.TxOut[outpoints[j].Index]
 			}
 		}
 	}
